@@ -125,14 +125,91 @@ def find_facts(guards, *subs):
     return [(k, p) for k, p in guards if all(s in k for s in subs)]
 
 
-def virtual_run_calls(fn, method="run"):
-    """Call nodes that are virtual calls to BasePlugin::<method>."""
+def _direct_virtual_calls(fn, method):
     out = []
     for i in fn.calls():
         n = fn.nodes[i]
         if n.get("virt") and n.get("cname") == method and "BasePlugin" in n.get("callee", ""):
             out.append(i)
     return out
+
+
+def run_wrappers(prog, method="run"):
+    """{usr: index of the plugin parameter} of the program's 'run helpers': functions that take a plugin (BasePlugin reference, pointer or
+    unique_ptr), call its virtual <method> exactly once on every path to a return, at no other place, and (for value-returning methods)
+    return that call's result.  A call of such a helper is a run site of the plugin passed to it."""
+    cache = prog.__dict__.setdefault("_run_wrappers", {})
+    if method in cache:
+        return cache[method]
+    from ..cfg import Flow
+    out = {}
+    for f in prog.fns.values():
+        if not f.cfg or f.kind == "lambda":
+            continue
+        calls = _direct_virtual_calls(f, method)
+        if len(calls) != 1:
+            continue
+        pidx = [k for k, p_ in enumerate(f.params) if "BasePlugin" in p_.get("type", "")]
+        if len(pidx) != 1:
+            continue
+        c = calls[0]
+        pname = f.params[pidx[0]]["name"]
+        root = f.root_ref(f.nodes[c].get("recv", -1)) if "recv" in f.nodes[c] else None
+        if root is None or f.nodes[root].get("name") != pname or f.nodes[root].get("dk") != "param":
+            continue
+        if any(l["stmt"] is not None and l["stmt"] in list(f.ancestors(c)) for l in loops(f)):
+            continue
+        fl = Flow(prog, f, events={c: [("set", "ran")]})
+        ok = not fl.may(c, "ran")
+        rets = []
+        for kind, node, b, parts in fl.exits():
+            if kind in ("return", "fallthrough"):
+                if not all("ran" in st.must for st in parts.values()):
+                    ok = False
+                if kind == "return" and node is not None and "val" in f.nodes[node]:
+                    rets.append(node)
+        for r in rets:
+            v = f.strip(f.nodes[r]["val"])
+            if v == c:
+                continue
+            vn = f.nodes[v]
+            if vn["k"] == "ref" and vn.get("dk") == "local":
+                init, var = local_init(f, vn["name"], must=False)
+                if var is not None and init is not None and init >= 0 and f.strip(init) == c and not local_writes(f, vn["name"], must=False):
+                    continue
+            ok = False
+        if ok:
+            out[f.usr] = pidx[0]
+    cache[method] = out
+    return out
+
+
+def virtual_run_calls(fn, method="run", prog=None):
+    """Call nodes that are virtual calls to BasePlugin::<method>; with `prog`, also the calls of the program's run helpers
+    (run_wrappers), which stand for the run of the plugin handed to them."""
+    out = _direct_virtual_calls(fn, method)
+    if prog is not None:
+        ws = run_wrappers(prog, method)
+        if fn.usr in ws:
+            return []          # the helper's own virtual call is accounted for at the helper's call sites
+        for i in fn.calls():
+            n = fn.nodes[i]
+            if n.get("cusr") and any(u in ws for u in prog.resolve(n["cusr"])):
+                out.append(i)
+    return out
+
+
+def run_receiver_text(fn, i, prog=None):
+    """Text of the plugin expression a run site runs: the receiver of a direct virtual call, the plugin argument of a run helper."""
+    n = fn.nodes[i]
+    if prog is not None and n.get("cusr"):
+        ws = run_wrappers(prog, n.get("cname") if n.get("cname") in ("run", "prerun") else "run")
+        for m_ in ("run", "prerun"):
+            ws = run_wrappers(prog, m_)
+            for u in prog.resolve(n["cusr"]):
+                if u in ws and len(n.get("args", [])) > ws[u]:
+                    return re.sub(r"^\*", "", fn.text(n["args"][ws[u]]))
+    return fn.text(n.get("recv", -1))
 
 
 def loop_over(fn, container_sub):
@@ -826,4 +903,87 @@ def loop_container(fn, loop):
                 t = fn.text(x)
                 r = fn.text(c["recv"])
                 return ("*" + r) if ("%s->%s(" % (r, c["cname"])) in t else r
+    return None
+
+
+def loop_entry_node(fn, loop):
+    """A CFG-positioned node every pass through the loop goes through once before its first iteration: the range expression of a
+    range-for, the initialiser of a classic for.  None when there is none (while/do)."""
+    if loop.get("stmt") is None:
+        return None
+    sn = fn.nodes[loop["stmt"]]
+    r_ = sn.get("range", -1) if sn["k"] == "rangefor" else sn.get("init", -1)
+    if r_ is None or r_ < 0:
+        return None
+    if fn.nodes[r_]["k"] == "decl":
+        r_ = next((v_["init"] for v_ in fn.nodes[r_].get("vars", []) if v_.get("init") is not None and v_.get("init", -1) >= 0), r_)
+    if fn.pos_of(r_) is not None:
+        return r_
+    return next((x for x in fn.walk(r_) if fn.pos_of(x) is not None), None)
+
+
+def is_loop_control_fact(key):
+    """Facts that only say 'the loop has another element' (range-for internals, iterator != end, index < size)."""
+    return ("__begin" in key or "__end" in key or re.search(r"\.c?end\(\)", key) is not None or
+            re.match(r"^\(\w+ < [\w.>-]+(\.|->)size\(\)\)$", key) is not None)
+
+
+def loop_walk(fn, loop):
+    """How a loop walks a container: {"dir": "forward"|"backward", "container": canonical text (pointer containers dereferenced, as in
+    loop_container), "elem": regular expression matching the text of 'the current element'} - or None for loops that are not a plain
+    walk.  Recognised spellings:
+      for (x : C)                                        forward,  element x
+      for (it = C.begin(); it != C.end(); ++it)          forward,  element *it / it->
+      for (it = C.rbegin(); it != C.rend(); ++it)        backward, element *it / it->
+      for (i = 0; i < C.size(); ++i)                     forward,  element C[i] / C.at(i)
+      for (i = C.size(); i > 0; --i)                     backward, element C[i - 1] / C.at(i - 1)
+    """
+    if loop.get("stmt") is None:
+        return None
+    sn = fn.nodes[loop["stmt"]]
+    if sn["k"] == "rangefor" and sn.get("range", -1) >= 0:
+        lv = sn.get("loopvar", -1)
+        names = [v["name"] for v in fn.nodes[lv].get("vars", [])] if lv is not None and lv >= 0 else []
+        return {"dir": "forward", "container": fn.text(fn.strip(sn["range"])), "elem": r"^(%s)(?!\w)" % "|".join(map(re.escape, names)) if names else r"^$", "var": names[0] if names else None}
+    if sn["k"] != "for":
+        return None
+    inc = fn.text(sn["inc"]) if sn.get("inc") is not None and sn.get("inc", -1) >= 0 else ""
+    cnd = fn.text(sn["c"]) if sn.get("c") is not None and sn.get("c", -1) >= 0 else ""
+
+    def deref(r, t, m):
+        return ("*" + r) if ("%s->%s(" % (r, m)) in t else r
+    if sn.get("init") is not None and sn.get("init", -1) >= 0 and fn.nodes[sn["init"]]["k"] == "decl":
+        for v in fn.nodes[sn["init"]].get("vars", []):
+            if v.get("init") is None or v.get("init", -1) < 0:
+                continue
+            nm = v["name"]
+            if nm in fn.dup_names:
+                nm = "%s@%s" % (nm, v.get("decl", "").split("@")[-1].split(":")[0])     # as Fn.text renders a name two locals share
+            up = inc in ("++" + nm, nm + "++")
+            down = inc in ("--" + nm, nm + "--")
+            it = fn.strip(v["init"])
+            c = fn.nodes[it]
+            if c["k"] == "call" and "recv" in c and c.get("cname") in ("begin", "cbegin", "rbegin", "crbegin") and up:
+                cont = deref(fn.text(c["recv"]), fn.text(it), c["cname"])
+                endn = {"begin": "end", "cbegin": "cend", "rbegin": "rend", "crbegin": "crend"}[c["cname"]]
+                # the loop stops at the matching end of the same container
+                if not re.search(r"(\.|->)c?r?end\(\)", cnd) or ("r" in c["cname"].replace("cbegin", "")) != bool(re.search(r"(\.|->)c?rend\(\)", cnd)):
+                    return None
+                return {"dir": "backward" if c["cname"] in ("rbegin", "crbegin") else "forward", "container": cont,
+                        "elem": r"^(\(?\*%s\)?|%s->)" % (re.escape(nm), re.escape(nm)), "var": nm}
+            t0 = fn.text(it)
+            if t0 == "0" and up:
+                m = re.match(r"^\(%s < (.+?)(\.|->)(size|length)\(\)\)$" % re.escape(nm), cnd)
+                if m:
+                    cont = ("*" + m.group(1)) if m.group(2) == "->" else m.group(1)
+                    base = m.group(1)
+                    return {"dir": "forward", "container": cont, "var": nm,
+                            "elem": r"^(%s\[%s\]|%s(\.|->)at\(%s\)|\(\*%s\)\[%s\])" % ((re.escape(base), re.escape(nm)) * 3)}
+            m0 = re.match(r"^(.+?)(\.|->)(size|length)\(\)$", t0)
+            if m0 and down and re.match(r"^\((0 < %s|%s > 0|%s != 0|%s)\)$|^%s$" % ((re.escape(nm),) * 5), cnd):
+                base = m0.group(1)
+                cont = ("*" + base) if m0.group(2) == "->" else base
+                idx = r"\(%s - 1\)" % re.escape(nm)
+                return {"dir": "backward", "container": cont, "var": nm,
+                        "elem": r"^(%s\[%s\]|%s(\.|->)at\(%s\)|\(\*%s\)\[%s\])" % ((re.escape(base), idx) * 3)}
     return None
